@@ -1248,7 +1248,7 @@ func (s ctxSink) Count(k string)                  { s.c.Count(k) }
 func gen(c *core.Ctx) error {
 	slog.SetDefault(slog.New(slog.NewTextHandler(io.Discard, nil)))
 	c.Rule("every case is one call of the real cedar function (ParseClaimIDStrict/ParseClaimID, ImportSessionInfoAttributes, ExportSecSessionInfo, ImportSecSessionInfo, shortVersion, deriveSessionKey, claimExpiration, MintClaimSession, ImportClaimSession, ImportFileTransferSession) with its projected result; the Coq model is evaluated on the same input. Oracle: mint x import on two caches compared field by field, real resumed handshakes in both directions, every single-character corruption of the secret, public form, render/parse round trip.")
-	c.PerFile = 120
+	c.PerFile = 350
 	c.Assume("HKDF-SHA256 behaves as the free term Kdf of coq/Lib/SymC16.v (distinct secrets give distinct keys)")
 	c.Assume("strings.TrimSpace / strings.Fields are modelled for ASCII white space; the generator feeds bytes < 0x80 only")
 	c.Assume("ClassAd attribute values used by the claim code are strings, integers and booleans")
